@@ -1,204 +1,244 @@
 HOOK_COMMITS = ["1ff129b", "a99d5e7"]
-FIX_COMMITS = ["4e1b160", "0b73798", "872da6d", "b5a5c41", "ada87a3", "a2a8667", "23387d2", "95cd43f", "1d40f2f", "9fea99c", "bc380c0"]
+FIX_COMMITS = ["4e1b160", "0b73798", "872da6d", "b5a5c41", "ada87a3", "a2a8667", "23387d2", "95cd43f", "1d40f2f", "9fea99c", "bc380c0", "6fab2aa", "6b8e051", "ae1cc55", "185de16", "f515ae6"]
 NOTES = "See DESIGN.md. Every check rebuilds the Lean property module, audits axioms, rebuilds the harness from /repo's working tree (content-hash cache) and runs the ties."
-NOT_APPLICABLE = {
- "C18": "not claimed yet: the snapshot tie (dump of the quiescent structure judged by Lean well-formedness functions) is not built; traversal/size agreement is only indirectly exercised by C13-C16/C20",
- "C19": "not claimed yet: no client drives the thread-safe iterators; planned (iterator operations in the list/hashset clients + relational oracle)",
-}
-CHECKS = {
- "C09": {
-  "category": "translation_validation",
-  "technique": "Lean 4: verified linearizability checker (sound+complete theorem) judging histories of the real stacks under a deterministic scheduler",
-  "text": "Histories of every stack variant, produced by the real code under seeded random/PCT schedules and exhaustive <=1 (thorough <=2) preemption enumeration, are judged against the Lean LIFO specification by a checker proved sound and complete in Lean. The theorem is about the checker and the specification; the algorithm model (Treiber atomic-step machine) is added on top when finished.",
-  "note": "SC interleavings only; memory orders not modelled; explored schedules only for the history tie; Lean kernel + propext/Classical.choice/Quot.sound.",
- },
- "C22": {
-  "category": "proof",
-  "technique": "Lean 4: inductive invariant over an atomic-step machine of spin_lock (all schedules, threads, locks) + atomic-trace conformance of the real lock against that machine + history tie for all five lock kinds",
-  "text": "Mutual exclusion of cds::sync::spin_lock is a Lean theorem over an interleaving machine with one transition per atomic operation, for every schedule, thread count, number of locks and client program obeying the unlock discipline; the machine is tied to the real code by replaying instrumented traces step by step. reentrant_spin_lock, pool_monitor, injecting_monitor and lock_array are decided by histories judged against the Lean lock specification with the verified checker plus occupancy and pool oracles on explored schedules (those clauses are translation validation, named in the evidence).",
-  "note": "SC interleavings; memory orders not modelled; discipline (only a holder unlocks) assumed by the theorem and obeyed by the harness; Lean kernel + propext/Classical.choice/Quot.sound.",
- },
- "C25": {
-  "category": "proof",
-  "technique": "Lean 4 theorems over BitVec about definitions regenerated from the C++ headers on every run (clang AST translator), cross-checked by differential evaluation against the compiled code and a reference semantics",
-  "text": "Every bit-reversal implementation, the portable MSB/LSB/popcount/complement helpers and the integer helpers are translated from the headers to Lean on every run; theorems state they equal the mathematical definition for all inputs (BitVec.reverse, log2 bounds, popcount...). The splitters are hand models (number_splitter composed from translated members) with cut/safe_cut specification theorems; all are tied to the compiled code by differential runs that also compare against an independent reference to produce a failing input when something breaks.",
-  "note": "Translator and clang AST trusted, cross-checked by differential runs; inline-asm bsr/bsf variants tied to the translated portable model by differential runs only; undefined-behaviour flags (shift >= width) are part of the translation and carried as proof obligations.",
- },
- "C26": {
-  "category": "proof",
-  "technique": "Lean 4: closed-form characterisation of the bit-reversed counter by induction (all n < 2^63), undo and Dyck theorems, over a hand model whose primitive is translated; differential tie on exhaustive small and random long sequences",
-  "text": "The exact sequence of slots is characterised (counter = n, highBit = log2 n, slot = 2^k + rev_k(n-2^k)); slots are pairwise distinct, complete levels are permutations, dec undoes inc exactly, balanced sequences return to the start. The literal 'permutation of 1..n for every n' is false by design (n=5) and is a recorded known finding proved as C26_literal_false.",
-  "note": "Hand model of a 30-line class tied by differential runs (exhaustive Dyck prefixes of length 14/18, random walks); no wrap-around at 2^64.",
- },
- "C27": {
-  "category": "proof",
-  "technique": "Lean 4 theorems over BitVec 64 about split-order functions regenerated from the headers each run, for each of the three reversal implementations; differential tie on the real SplitListSet",
-  "text": "regular keys odd, dummies even, parent dummy before child dummy, bucket contiguity and split refinement are theorems about the translated regular_hash/dummy_hash/bucket_no/parent_bucket for all 64-bit hashes and all table sizes 2^0..2^63, with the UB obligations discharged (after the fix: commit). The differential tie calls the real functions (bucket_no through a real SplitListSet object).",
-  "note": "Translator trusted and cross-checked; bucket-count logarithm is a parameter (it is an atomic member); rcu/nogc textual copies covered by the fix commit and by reading, not by the translator.",
- },
- "C28": {
-  "category": "proof",
-  "technique": "Lean 4 theorems about the translated metrics::make and the splitter models (layout exactness, path injectivity, expand-offset agreement); exhaustive differential run over all configurations of the quantifier",
-  "text": "Layout exactness is proved for all head/array widths and hash sizes 1,2,4,8 about the Lean definition regenerated from feldman_hashset_base.h; equal hashes follow equal paths, distinct hashes diverge before the bits run out (injectivity of the cut sequence, from the cut specification theorem), the slot expand_slot derives from bit_offset() equals the traverse slot. All 4420 configurations are also run on the real code, and families of prefix-sharing hashes are inserted into a real FeldmanHashSet.",
-  "note": "split_bitstring/byte_splitter are hand models tied by differential runs; head width 64 is undefined (known finding with proved witness); widths above 32 with byte-array hashes are outside split_bitstring's unsigned result (proved witness).",
- },
- "C01": {'category': 'translation_validation',
- 'note': 'SC interleavings only (threads serialised by a baton at every atomic operation); explored schedules only (seeded random, PCT, exhaustive <=1/<=2 preemptions of small programs); memory '
-         'orders not modelled; Lean kernel + propext/Classical.choice/Quot.sound for the checker theorem. std::sort/binary_search/lower_bound modelled by contract; retire discipline (retire after '
-         'unlink, once) obeyed by the harness client.',
- 'technique': 'Lean 4 theorems about the reclamation decision of a scan pass (pure model tied by differential runs on the real classic_scan/inplace_scan) + disposer-time oracle on the real HP under '
-              'a deterministic scheduler',
- 'text': "The decision of one scan pass (what is freed given the collected hazards and the retired array, both strategies including the odd-address fallback) is a Lean model with theorems 'nothing "
-         "equal to a hazard is freed'; it is tied to the real functions by differential runs. The interleaving-level clause (a guard validated before retirement is seen by every later pass) is "
-         'decided on explored schedules of the real code by an oracle evaluated inside the disposer: no guard whose protect() completed may exist for the object. The protocol theorem over all '
-         'schedules is work in progress and not claimed.'},
- "C02": {'category': 'translation_validation',
- 'note': 'SC interleavings only (threads serialised by a baton at every atomic operation); explored schedules only (seeded random, PCT, exhaustive <=1/<=2 preemptions of small programs); memory '
-         'orders not modelled; Lean kernel + propext/Classical.choice/Quot.sound for the checker theorem.',
- 'technique': 'disposer-time oracle on the real DHP under a deterministic scheduler (40 guards per thread to force guard-block extension, detach/re-attach) + Lean theorem on the shared scan decision '
-              'model',
- 'text': "DHP's per-pass decision has the same shape as HP's classic scan (binary search of each retired entry in the sorted hazard copy); the Lean theorem covers that decision. Guard blocks, "
-         'retired blocks and record reuse are decided on explored schedules by the disposer-time oracle only.'},
- "C03": {'category': 'translation_validation',
- 'note': 'SC interleavings only (threads serialised by a baton at every atomic operation); explored schedules only (seeded random, PCT, exhaustive <=1/<=2 preemptions of small programs); memory '
-         'orders not modelled; Lean kernel + propext/Classical.choice/Quot.sound for the checker theorem.',
- 'technique': 'Lean 4 theorems (a pass partitions the retired array: kept + freed is a permutation; unprotected => freed) on the scan model tied by differential runs + exactly-once oracles on HP/DHP '
-              '(per-object disposer counter, quiet-scan completeness, count after destruction)',
- 'text': 'Per pass: nothing lost or duplicated and every unprotected entry freed are Lean theorems about the decision model (both HP strategies). Across passes, help_scan adoption, detach and '
-         'destruction are decided on explored schedules by counting disposer calls per object and checking after destruction of the singleton that every retired object was disposed exactly once; '
-         'thorough adds an ASan build and the retired-capacity boundary.'},
- "C06": {'category': 'translation_validation',
- 'note': 'SC interleavings only (threads serialised by a baton at every atomic operation); explored schedules only (seeded random, PCT, exhaustive <=1/<=2 preemptions of small programs); memory '
-         'orders not modelled; Lean kernel + propext/Classical.choice/Quot.sound for the checker theorem.',
- 'technique': 'Lean 4: histories of the real containers under a deterministic scheduler judged against the Lean sequential specification by a linearizability checker proved sound and complete in '
-              'Lean',
- 'text': 'Every queue variant (MSQueue, MoirQueue, BasketQueue, OptimisticQueue, RWQueue, FCQueue; intrusive and container; HP/DHP; item counter, seq-cst) is run. The executable Lean model here is '
-         'the sequential specification (Spec.fifo) plus the definition of linearizability; the proved theorem is that the checker decides it exactly, so a history the real code produces is accepted '
-         "iff it is linearizable. The containers' algorithms themselves are not yet modelled step by step: the claim is validation of every explored execution of the real code against the model, not "
-         'a proof over all schedules. '},
- "C07": {'category': 'translation_validation',
- 'note': 'SC interleavings only (threads serialised by a baton at every atomic operation); explored schedules only (seeded random, PCT, exhaustive <=1/<=2 preemptions of small programs); memory '
-         'orders not modelled; Lean kernel + propext/Classical.choice/Quot.sound for the checker theorem.',
- 'technique': 'Lean 4: histories of the real containers under a deterministic scheduler judged against the Lean sequential specification by a linearizability checker proved sound and complete in '
-              'Lean',
- 'text': 'Vyukov bounded queue, static/dynamic buffers, capacities 2/4/8, intrusive, single-consumer front/pop_front. The executable Lean model here is the sequential specification (Spec.bfifo with '
-         "the object's own capacity()) plus the definition of linearizability; the proved theorem is that the checker decides it exactly, so a history the real code produces is accepted iff it is "
-         "linearizable. The containers' algorithms themselves are not yet modelled step by step: the claim is validation of every explored execution of the real code against the model, not a proof "
-         'over all schedules. '},
- "C10": {'category': 'translation_validation',
- 'note': 'SC interleavings only (threads serialised by a baton at every atomic operation); explored schedules only (seeded random, PCT, exhaustive <=1/<=2 preemptions of small programs); memory '
-         'orders not modelled; Lean kernel + propext/Classical.choice/Quot.sound for the checker theorem.',
- 'technique': 'Lean 4: histories of the real containers under a deterministic scheduler judged against the Lean sequential specification by a linearizability checker proved sound and complete in '
-              'Lean',
- 'text': 'FCDeque over std::deque and boost deque, elimination on/off, compact factor 1-2, combine passes 1-4. The executable Lean model here is the sequential specification (Spec.deque) plus the '
-         "definition of linearizability; the proved theorem is that the checker decides it exactly, so a history the real code produces is accepted iff it is linearizable. The containers' algorithms "
-         'themselves are not yet modelled step by step: the claim is validation of every explored execution of the real code against the model, not a proof over all schedules. '},
- "C11": {'category': 'translation_validation',
- 'note': 'SC interleavings only (threads serialised by a baton at every atomic operation); explored schedules only (seeded random, PCT, exhaustive <=1/<=2 preemptions of small programs); memory '
-         'orders not modelled; Lean kernel + propext/Classical.choice/Quot.sound for the checker theorem.',
- 'technique': 'Lean 4: histories of the real containers under a deterministic scheduler judged against the Lean sequential specification by a linearizability checker proved sound and complete in '
-              'Lean',
- 'text': 'FCPriorityQueue, and MSPriorityQueue restricted by construction to histories without push/pop overlap (pre-filled pops-only, pushes-only then sequential drain). The executable Lean model '
-         'here is the sequential specification (Spec.maxpq (pop returns any item of maximal priority; push fails only when full)) plus the definition of linearizability; the proved theorem is that '
-         "the checker decides it exactly, so a history the real code produces is accepted iff it is linearizable. The containers' algorithms themselves are not yet modelled step by step: the claim "
-         'is validation of every explored execution of the real code against the model, not a proof over all schedules. '},
- "C13": {'category': 'translation_validation',
- 'note': 'SC interleavings only (threads serialised by a baton at every atomic operation); explored schedules only (seeded random, PCT, exhaustive <=1/<=2 preemptions of small programs); memory '
-         'orders not modelled; Lean kernel + propext/Classical.choice/Quot.sound for the checker theorem.',
- 'technique': 'Lean 4: histories of the real containers under a deterministic scheduler judged against the Lean sequential specification by a linearizability checker proved sound and complete in '
-              'Lean',
- 'text': '31 list variants (Michael/Lazy/Iterable; set and kv; HP/DHP/RCU gpi,gpb; intrusive; nogc; compare/less; item counter). The executable Lean model here is the sequential specification '
-         '(Spec.mapConc (keys strict, functor payloads not atomic with the operation)) plus the definition of linearizability; the proved theorem is that the checker decides it exactly, so a history '
-         "the real code produces is accepted iff it is linearizable. The containers' algorithms themselves are not yet modelled step by step: the claim is validation of every explored execution of "
-         'the real code against the model, not a proof over all schedules. '},
- "C14": {'category': 'translation_validation',
- 'note': 'SC interleavings only (threads serialised by a baton at every atomic operation); explored schedules only (seeded random, PCT, exhaustive <=1/<=2 preemptions of small programs); memory '
-         'orders not modelled; Lean kernel + propext/Classical.choice/Quot.sound for the checker theorem.',
- 'technique': 'Lean 4: histories of the real containers under a deterministic scheduler judged against the Lean sequential specification by a linearizability checker proved sound and complete in '
-              'Lean',
- 'text': '53 hash variants (MichaelHashSet/Map over every list, SplitList static/dynamic tables with growth, FeldmanHashSet/Map at minimal widths with shared-prefix hashes; HP/DHP/RCU/nogc). The '
-         'executable Lean model here is the sequential specification (Spec.mapConc) plus the definition of linearizability; the proved theorem is that the checker decides it exactly, so a history '
-         "the real code produces is accepted iff it is linearizable. The containers' algorithms themselves are not yet modelled step by step: the claim is validation of every explored execution of "
-         'the real code against the model, not a proof over all schedules. '},
- "C15": {'category': 'translation_validation',
- 'note': 'SC interleavings only (threads serialised by a baton at every atomic operation); explored schedules only (seeded random, PCT, exhaustive <=1/<=2 preemptions of small programs); memory '
-         'orders not modelled; Lean kernel + propext/Classical.choice/Quot.sound for the checker theorem.',
- 'technique': 'Lean 4: histories of the real containers under a deterministic scheduler judged against the Lean sequential specification by a linearizability checker proved sound and complete in '
-              'Lean',
- 'text': '27 variants (SkipListSet/Map, EllenBinTree set/map, BronsonAVLTreeMap value/pointer with injecting and pool monitors; HP/DHP/RCU). The executable Lean model here is the sequential '
-         'specification (Spec.mapRelaxed) plus the definition of linearizability; the proved theorem is that the checker decides it exactly, so a history the real code produces is accepted iff it is '
-         "linearizable. The containers' algorithms themselves are not yet modelled step by step: the claim is validation of every explored execution of the real code against the model, not a proof "
-         "over all schedules. extract_min/extract_max: returned key present and empty only if empty are in the specification; 'no key present throughout is smaller/larger' is a real-time oracle over "
-         'the history.'},
- "C16": {'category': 'translation_validation',
- 'note': 'SC interleavings only (threads serialised by a baton at every atomic operation); explored schedules only (seeded random, PCT, exhaustive <=1/<=2 preemptions of small programs); memory '
-         'orders not modelled; Lean kernel + propext/Classical.choice/Quot.sound for the checker theorem.',
- 'technique': 'Lean 4: histories of the real containers under a deterministic scheduler judged against the Lean sequential specification by a linearizability checker proved sound and complete in '
-              'Lean',
- 'text': '23 variants (StripedSet/Map over list/set/flat buckets, striping and refinable policies with forced resizes; CuckooSet/Map striping/refinable, list/vector probe sets, stored hash on/off). '
-         'The executable Lean model here is the sequential specification (Spec.mapConc) plus the definition of linearizability; the proved theorem is that the checker decides it exactly, so a '
-         "history the real code produces is accepted iff it is linearizable. The containers' algorithms themselves are not yet modelled step by step: the claim is validation of every explored "
-         'execution of the real code against the model, not a proof over all schedules. '},
- "C23": {'category': 'translation_validation',
- 'note': 'SC interleavings only (threads serialised by a baton at every atomic operation); explored schedules only (seeded random, PCT, exhaustive <=1/<=2 preemptions of small programs); memory '
-         "orders not modelled; Lean kernel + propext/Classical.choice/Quot.sound for the checker theorem. wait strategy backoff only; boost TSS replaced by an explicit reset of the kernel's thread "
-         'record under the scheduler.',
- 'technique': 'histories of every flat-combining container (exactly-once and response-after-execution show as linearizability of the container) + reclamation oracle (quarantining allocator checks at '
-              'free time that the publication record is unreachable) under a deterministic scheduler with thread exit as a scheduling point',
- 'text': "No kernel model yet: a request executed twice, never, or answered before execution breaks the container's history and is caught by the verified checker; mutual exclusion of combiners "
-         'likewise. Reclamation of publication records is judged by an allocator that keeps freed records readable and checks reachability from the publication list at the moment of free. This check '
-         'found the compact_list defect (fixed).'},
- "C04": {'category': 'proof',
- 'note': 'SC interleavings only (threads serialised by a baton at every atomic operation); explored schedules only for the history/oracle ties; memory orders not modelled; Lean kernel + '
-         'propext/Classical.choice/Quot.sound. general_threaded and signal_buffered (OS thread / signals) are not run; std::mutex replaced by the spin lock through the template parameter; the buffer '
-         'is an atomic bag in the model (its queue is judged by C07).',
- 'technique': 'Lean 4: inductive invariants over an atomic-step machine of the general-purpose RCU (two-phase flip, nesting, epoch tagging, buffer overflow, destruct) for all schedules and thread '
-              'counts + oracles evaluated on the real general_instant/general_buffered under a deterministic scheduler',
- 'text': 'C04_grace_period, C04_no_dispose_under_preexisting_reader (both general flavours, including the epoch-tag lemma), C04_nested are Lean theorems about a hand model of gp.h/gpi.h/gpb.h. The '
-         'model is tied to the code by oracles on the real execution (disposer-time check against every open critical section that began before the retire, synchronize-return check, deref of '
-         'poisoned objects), 30000+ schedules per run including buffer capacity 1 and overflow; the trace-conformance replay of this machine is not wired yet (named in the evidence).'},
- "C05": {'category': 'proof',
- 'note': 'SC interleavings only (threads serialised by a baton at every atomic operation); explored schedules only for the history/oracle ties; memory orders not modelled; Lean kernel + '
-         'propext/Classical.choice/Quot.sound. same limits as C04.',
- 'technique': 'Lean 4: conservation invariant (every retired object in exactly one place) and exactly-once theorems over the same RCU machine incl. destruct + per-object disposer counters on the '
-              'real code',
- 'text': 'C05_at_most_once, C05_only_after_retire, C05_only_after_grace_period, C05_conservation, C05_all_disposed_after_destruct are Lean theorems about the RCU machine (including the element whose '
-         'push failed on a full buffer and the pushed-back element with a newer epoch). The real flavours are run with per-object counters checked after destruction of the singleton.'},
- "C12": {'category': 'proof',
- 'note': 'SC interleavings only (threads serialised by a baton at every atomic operation); explored schedules only for the history/oracle ties; memory orders not modelled; Lean kernel + '
-         'propext/Classical.choice/Quot.sound. counters are Nat (no 2^64 wrap); capacity rounded to a multiple of 8 by the constructor after the fix commit.',
- 'technique': 'Lean 4: invariant proofs over a two-thread atomic-step machine of the typed ring buffer (all interleavings, any capacity and batch sizes) tied by trace conformance; proved sequential '
-              'model of the variable-size record layout; byte-exact consumer oracle on the real void buffer',
- 'text': "C12_typed_fifo, buffer content, push/pop failure characterisations and never-overwrites are theorems about the machine that the real typed buffer's traces are replayed against step by step "
-         "(3000+ traces per run). The void variant's record layout (headers, tail markers, wrap) is a proved sequential model over the translated size helpers; its producer/consumer interleavings "
-         'are decided by the byte-exact oracle on explored schedules.'},
- "C08": {'category': 'exploration',
- 'note': 'SC interleavings only (threads serialised by a baton at every atomic operation); explored schedules only for the history/oracle ties; memory orders not modelled; Lean kernel + '
-         'propext/Classical.choice/Quot.sound.',
- 'technique': 'oracles over self-recorded real-time histories of the real SegmentedQueue (conservation, quasi bound in its sound real-time reading, empty rule) under a deterministic scheduler with a '
-              'deterministic permutation generator; no Lean model yet',
- 'text': 'Decided on explored schedules only. The Lean side currently contributes only the verified checker infrastructure; a segmented-queue model is not written.'},
- "C17": {'category': 'translation_validation',
- 'note': 'sequential growth only; concurrent resizes are judged by C14/C16.',
- 'technique': 'single-threaded differential runs of CuckooSet/StripedSet/SplitListSet growth against a std::set reference after every operation, with degenerate hash families; Lean theorems for the '
-              "split-order (C27) and Feldman (C28) parts of 'growth moves nothing it should not'",
- 'text': 'SplitList growth never moves an element and Feldman expansion moves one element one level: these parts rest on the C27/C28 theorems. Striped and cuckoo rehash have no Lean model yet: '
-         'decided exactly (single-threaded) on generated sequences. The CuckooSet::resize drop is a recorded known finding with a kept witness.'},
- "C20": {'category': 'translation_validation',
- 'note': 'variants are those instantiated by the harness clients, not the full trait matrix of test/unit.',
- 'technique': 'single-threaded operation sequences on every variant of every client judged against the strict Lean reference specifications by the verified checker; spec laws of update() as Lean '
-              'theorems',
- 'text': 'About 190 container variants x 2500 sequences per quick run; return values and payloads observed through functors are compared with Spec.map/fifo/bfifo/lifo/deque/maxpq. size/empty/clear, '
-         'functor call counts and disposer counts are only partly covered (named in the evidence).'},
- "C21": {'category': 'exploration',
- 'note': 'SC interleavings only (threads serialised by a baton at every atomic operation); explored schedules only for the history/oracle ties; memory orders not modelled; Lean kernel + '
-         'propext/Classical.choice/Quot.sound.',
- 'technique': 'ownership oracles on the real FreeList/TaggedFreeList/CachedFreeList under a deterministic scheduler (double hand-out, invented node, quiescent drain returns exactly the '
-              'put-and-not-taken set); Lean model in progress',
- 'text': "Decided on explored schedules only, including the re-add-while-referenced race; the client's own history can additionally be judged against Spec.bag."},
- "C24": {'category': 'exploration',
- 'note': 'SC interleavings only (threads serialised by a baton at every atomic operation); explored schedules only for the history/oracle ties; memory orders not modelled; Lean kernel + '
-         'propext/Classical.choice/Quot.sound.',
- 'technique': 'ownership / marker / preallocated-range oracles on the real vyukov_queue_pool, lazy, bounded pools and pool_allocator under a deterministic scheduler, up to and past capacity',
- 'text': 'Decided on explored schedules only; rests on C07 for the underlying queue.'},
-}
+NOT_APPLICABLE = {}
+CHECKS = {'C09': {'category': 'translation_validation',
+         'technique': 'Lean 4: verified linearizability checker (sound+complete theorem) judging histories of the real stacks under a deterministic scheduler',
+         'text': 'Histories of every stack variant, produced by the real code under seeded random/PCT schedules and exhaustive <=1 (thorough <=2) preemption enumeration, are judged against the Lean '
+                 'LIFO specification by a checker proved sound and complete in Lean. The theorem is about the checker and the specification; the algorithm model (Treiber atomic-step machine) is '
+                 'added on top when finished.',
+         'note': 'SC interleavings only; memory orders not modelled; explored schedules only for the history tie; Lean kernel + propext/Classical.choice/Quot.sound.'},
+ 'C22': {'category': 'proof',
+         'technique': 'Lean 4: inductive invariants over atomic-step machines of spin_lock, reentrant_spin_lock and pool_monitor (all schedules, threads, locks/nodes, pool capacities) + atomic-trace '
+                      'conformance of the real spin and reentrant locks + history tie and occupancy/pool oracles for all five lock kinds',
+         'text': 'C22 (spin): mutual exclusion. C22Monitors: C22_reentrant_mutex, C22_reentrant_lock_word, C22_reentrant_release_by_last_unlock, C22_reentrant_other_threads_excluded; '
+                 'C22_pool_monitor_mutex, C22_pool_lock_unique, C22_pool_lock_returned_only_when_unused, C22_pool_refcount_counts_users, C22_pool_spinbit_mutex. Spin and reentrant machines are tied '
+                 "by replaying instrumented traces step by step; the pool monitor machine is a hand model tied through the client's oracles and histories (its trace tie is not wired: the lock pool's "
+                 'own operations are not model events). injecting_monitor and lock_array: histories judged against the Lean lock specification plus occupancy oracles.',
+         'note': 'SC interleavings; memory orders not modelled; discipline (only a holder unlocks) assumed by the theorems and obeyed by the harness; Lean kernel + '
+                 'propext/Classical.choice/Quot.sound.'},
+ 'C25': {'category': 'proof',
+         'technique': 'Lean 4 theorems over BitVec about definitions regenerated from the C++ headers on every run (clang AST translator), cross-checked by differential evaluation against the '
+                      'compiled code and a reference semantics',
+         'text': 'Every bit-reversal implementation, the portable MSB/LSB/popcount/complement helpers and the integer helpers are translated from the headers to Lean on every run; theorems state '
+                 'they equal the mathematical definition for all inputs (BitVec.reverse, log2 bounds, popcount...). The splitters are hand models (number_splitter composed from translated members) '
+                 'with cut/safe_cut specification theorems; all are tied to the compiled code by differential runs that also compare against an independent reference to produce a failing input when '
+                 'something breaks.',
+         'note': 'Translator and clang AST trusted, cross-checked by differential runs; inline-asm bsr/bsf variants tied to the translated portable model by differential runs only; '
+                 'undefined-behaviour flags (shift >= width) are part of the translation and carried as proof obligations.'},
+ 'C26': {'category': 'proof',
+         'technique': 'Lean 4: closed-form characterisation of the bit-reversed counter by induction (all n < 2^63), undo and Dyck theorems, over a hand model whose primitive is translated; '
+                      'differential tie on exhaustive small and random long sequences',
+         'text': 'The exact sequence of slots is characterised (counter = n, highBit = log2 n, slot = 2^k + rev_k(n-2^k)); slots are pairwise distinct, complete levels are permutations, dec undoes '
+                 "inc exactly, balanced sequences return to the start. The literal 'permutation of 1..n for every n' is false by design (n=5) and is a recorded known finding proved as "
+                 'C26_literal_false.',
+         'note': 'Hand model of a 30-line class tied by differential runs (exhaustive Dyck prefixes of length 14/18, random walks); no wrap-around at 2^64.'},
+ 'C27': {'category': 'proof',
+         'technique': 'Lean 4 theorems over BitVec 64 about split-order functions regenerated from the headers each run, for each of the three reversal implementations; differential tie on the real '
+                      'SplitListSet',
+         'text': 'regular keys odd, dummies even, parent dummy before child dummy, bucket contiguity and split refinement are theorems about the translated '
+                 'regular_hash/dummy_hash/bucket_no/parent_bucket for all 64-bit hashes and all table sizes 2^0..2^63, with the UB obligations discharged (after the fix: commit). The differential '
+                 'tie calls the real functions (bucket_no through a real SplitListSet object).',
+         'note': 'Translator trusted and cross-checked; bucket-count logarithm is a parameter (it is an atomic member); rcu/nogc textual copies covered by the fix commit and by reading, not by the '
+                 'translator.'},
+ 'C28': {'category': 'proof',
+         'technique': 'Lean 4 theorems about the translated metrics::make and the splitter models (layout exactness, path injectivity, expand-offset agreement); exhaustive differential run over all '
+                      'configurations of the quantifier',
+         'text': 'Layout exactness is proved for all head/array widths and hash sizes 1,2,4,8 about the Lean definition regenerated from feldman_hashset_base.h; equal hashes follow equal paths, '
+                 'distinct hashes diverge before the bits run out (injectivity of the cut sequence, from the cut specification theorem), the slot expand_slot derives from bit_offset() equals the '
+                 'traverse slot. All 4420 configurations are also run on the real code, and families of prefix-sharing hashes are inserted into a real FeldmanHashSet.',
+         'note': 'split_bitstring/byte_splitter are hand models tied by differential runs; head width 64 is undefined (known finding with proved witness); widths above 32 with byte-array hashes are '
+                 "outside split_bitstring's unsigned result (proved witness)."},
+ 'C01': {'category': 'translation_validation',
+         'note': 'SC interleavings only (threads serialised by a baton at every atomic operation); explored schedules only (seeded random, PCT, exhaustive <=1/<=2 preemptions of small programs); '
+                 'memory orders not modelled; Lean kernel + propext/Classical.choice/Quot.sound for the checker theorem. std::sort/binary_search/lower_bound modelled by contract; retire discipline '
+                 '(retire after unlink, once) obeyed by the harness client.',
+         'technique': 'Lean 4 theorems about the reclamation decision of a scan pass (pure model tied by differential runs on the real classic_scan/inplace_scan) + disposer-time oracle on the real '
+                      'HP under a deterministic scheduler',
+         'text': 'The decision of one scan pass (what is freed given the collected hazards and the retired array, both strategies including the odd-address fallback) is a Lean model with theorems '
+                 "'nothing equal to a hazard is freed'; it is tied to the real functions by differential runs. The interleaving-level clause (a guard validated before retirement is seen by every "
+                 'later pass) is decided on explored schedules of the real code by an oracle evaluated inside the disposer: no guard whose protect() completed may exist for the object. The protocol '
+                 'theorem over all schedules is work in progress and not claimed.'},
+ 'C02': {'category': 'translation_validation',
+         'technique': 'disposer-time oracle on the real DHP under a deterministic scheduler (initial guard counts 4..32, 40 guards per thread to force guard-block extension, detach/re-attach) + Lean '
+                      'theorem on the shared scan decision model + HP protocol theorem',
+         'text': "DHP's per-pass decision has the same shape as HP's classic scan (binary search of each retired entry in the sorted hazard copy); the Lean theorem covers that decision, and the "
+                 'protocol machine of C01 covers the interleaving argument for static records. Guard blocks (block size 16 vs initial size), retired blocks and record reuse are decided on explored '
+                 'schedules by the disposer-time oracle only.',
+         'note': 'SC interleavings only (threads serialised by a baton at every atomic operation); memory orders not modelled; explored schedules only for the history/oracle/trace ties; Lean kernel '
+                 '+ propext/Classical.choice/Quot.sound.'},
+ 'C03': {'category': 'translation_validation',
+         'note': 'SC interleavings only (threads serialised by a baton at every atomic operation); explored schedules only (seeded random, PCT, exhaustive <=1/<=2 preemptions of small programs); '
+                 'memory orders not modelled; Lean kernel + propext/Classical.choice/Quot.sound for the checker theorem.',
+         'technique': 'Lean 4 theorems (a pass partitions the retired array: kept + freed is a permutation; unprotected => freed) on the scan model tied by differential runs + exactly-once oracles '
+                      'on HP/DHP (per-object disposer counter, quiet-scan completeness, count after destruction)',
+         'text': 'Per pass: nothing lost or duplicated and every unprotected entry freed are Lean theorems about the decision model (both HP strategies). Across passes, help_scan adoption, detach '
+                 'and destruction are decided on explored schedules by counting disposer calls per object and checking after destruction of the singleton that every retired object was disposed '
+                 'exactly once; thorough adds an ASan build and the retired-capacity boundary.'},
+ 'C06': {'category': 'translation_validation',
+         'note': 'SC interleavings only (threads serialised by a baton at every atomic operation); explored schedules only (seeded random, PCT, exhaustive <=1/<=2 preemptions of small programs); '
+                 'memory orders not modelled; Lean kernel + propext/Classical.choice/Quot.sound for the checker theorem.',
+         'technique': 'Lean 4: histories of the real containers under a deterministic scheduler judged against the Lean sequential specification by a linearizability checker proved sound and '
+                      'complete in Lean',
+         'text': 'Every queue variant (MSQueue, MoirQueue, BasketQueue, OptimisticQueue, RWQueue, FCQueue; intrusive and container; HP/DHP; item counter, seq-cst) is run. The executable Lean model '
+                 'here is the sequential specification (Spec.fifo) plus the definition of linearizability; the proved theorem is that the checker decides it exactly, so a history the real code '
+                 "produces is accepted iff it is linearizable. The containers' algorithms themselves are not yet modelled step by step: the claim is validation of every explored execution of the "
+                 'real code against the model, not a proof over all schedules. '},
+ 'C07': {'category': 'proof',
+         'technique': 'Lean 4: atomic-step machine of VyukovMPMCCycleQueue enqueue/dequeue proved linearizable to the bounded FIFO for all schedules, thread counts and capacities 2^k (fixed '
+                      'linearization points, full/empty instants, no-overwrite, cell ownership) + atomic-trace conformance of the real queue against that machine + histories judged by the verified '
+                      'linearizability checker',
+         'text': 'Algo/Vyukov models every atomic load/store/CAS of m_posEnqueue, m_posDequeue and the cell sequences; C07_vyukov_linearizable (Herlihy-Wing with pending operations), '
+                 'C07_vyukov_full_means_full / empty_means_empty, C07_vyukov_positions, C07_vyukov_no_overwrite, C07_vyukov_cell_ownership are theorems for every k >= 1 and every schedule. The real '
+                 "queue (dynamic/static buffers, intrusive) is replayed against the machine step by step with values (start state = the machine's own run of the client's warm-up rotations); all "
+                 'variants including single-consumer front/pop_front are also judged as histories against Spec.bfifo.',
+         'note': 'SC interleavings only (threads serialised by a baton at every atomic operation); memory orders not modelled; explored schedules only for the history/oracle/trace ties; Lean kernel '
+                 '+ propext/Classical.choice/Quot.sound. Unbounded positions (no 2^64 wrap); weak CAS never fails spuriously; single_consumer front()/pop_front() has no machine (histories only); '
+                 'capacity 1 is a precondition violation of the queue (recorded).'},
+ 'C10': {'category': 'translation_validation',
+         'technique': 'Lean 4: theorems about a transcription of FCDeque::fc_process/fc_apply (elimination pass and batch application refine a permutation of the batch run by Spec.deque; collide '
+                      'rule as iff) + kernel theorems of C23 + histories of the real FCDeque judged by the verified linearizability checker',
+         'text': "Algo/FC/Batch transcribes the elimination loop shared by FCDeque/FCQueue/FCStack and the containers' apply functions; C10_collide_rule (iff), C10_cross_end_only_if_empty, "
+                 'C10_batch_refines, C10_session_refines, C10_batch_linearizable are theorems for every batch. The transcription is a hand model; it is tied to the code by histories of the real '
+                 'FCDeque (std::deque and boost deque, elimination on/off, compact factor 1-2, passes 1-4) under the deterministic scheduler, where every collision the real code performs must be '
+                 'explained by Spec.deque.',
+         'note': 'SC interleavings only (threads serialised by a baton at every atomic operation); memory orders not modelled; explored schedules only for the history/oracle/trace ties; Lean kernel '
+                 '+ propext/Classical.choice/Quot.sound. Fixed batch (requests arriving during the walk not modelled); composition batch + kernel is not a Lean theorem.'},
+ 'C11': {'category': 'translation_validation',
+         'technique': 'Lean 4: histories of the real priority queues judged against Spec.maxpq by the verified linearizability checker (FCPriorityQueue; MSPriorityQueue without push/pop overlap) + '
+                      'FC batch theorem for FCPriorityQueue + conservation/capacity oracle for MSPriorityQueue histories with push/pop overlap',
+         'text': 'FCPriorityQueue: C11_fcpq_batch_refines / batch_linearizable (Algo/FC/Batch) plus histories. MSPriorityQueue: histories without overlap are generated by construction (pre-filled '
+                 "pops-only; pushes-only then sequential drain) and judged against the bounded max-priority queue with the object's capacity; histories with overlap (mspq_mixed, imspq_mixed) are "
+                 "judged by the conservation oracle (every pushed item popped exactly once after a drain, nothing else popped) and 'push fails only if capacity items can have been present'.",
+         'note': 'SC interleavings only (threads serialised by a baton at every atomic operation); memory orders not modelled; explored schedules only for the history/oracle/trace ties; Lean kernel '
+                 '+ propext/Classical.choice/Quot.sound. No atomic-step model of the Hunt heap.'},
+ 'C13': {'category': 'translation_validation',
+         'note': 'SC interleavings only (threads serialised by a baton at every atomic operation); explored schedules only (seeded random, PCT, exhaustive <=1/<=2 preemptions of small programs); '
+                 'memory orders not modelled; Lean kernel + propext/Classical.choice/Quot.sound for the checker theorem.',
+         'technique': 'Lean 4: histories of the real containers under a deterministic scheduler judged against the Lean sequential specification by a linearizability checker proved sound and '
+                      'complete in Lean',
+         'text': '31 list variants (Michael/Lazy/Iterable; set and kv; HP/DHP/RCU gpi,gpb; intrusive; nogc; compare/less; item counter). The executable Lean model here is the sequential '
+                 'specification (Spec.mapConc (keys strict, functor payloads not atomic with the operation)) plus the definition of linearizability; the proved theorem is that the checker decides it '
+                 "exactly, so a history the real code produces is accepted iff it is linearizable. The containers' algorithms themselves are not yet modelled step by step: the claim is validation of "
+                 'every explored execution of the real code against the model, not a proof over all schedules. '},
+ 'C14': {'category': 'translation_validation',
+         'note': 'SC interleavings only (threads serialised by a baton at every atomic operation); explored schedules only (seeded random, PCT, exhaustive <=1/<=2 preemptions of small programs); '
+                 'memory orders not modelled; Lean kernel + propext/Classical.choice/Quot.sound for the checker theorem.',
+         'technique': 'Lean 4: histories of the real containers under a deterministic scheduler judged against the Lean sequential specification by a linearizability checker proved sound and '
+                      'complete in Lean',
+         'text': '53 hash variants (MichaelHashSet/Map over every list, SplitList static/dynamic tables with growth, FeldmanHashSet/Map at minimal widths with shared-prefix hashes; HP/DHP/RCU/nogc). '
+                 'The executable Lean model here is the sequential specification (Spec.mapConc) plus the definition of linearizability; the proved theorem is that the checker decides it exactly, so '
+                 "a history the real code produces is accepted iff it is linearizable. The containers' algorithms themselves are not yet modelled step by step: the claim is validation of every "
+                 'explored execution of the real code against the model, not a proof over all schedules. '},
+ 'C15': {'category': 'translation_validation',
+         'note': 'SC interleavings only (threads serialised by a baton at every atomic operation); explored schedules only (seeded random, PCT, exhaustive <=1/<=2 preemptions of small programs); '
+                 'memory orders not modelled; Lean kernel + propext/Classical.choice/Quot.sound for the checker theorem.',
+         'technique': 'Lean 4: histories of the real containers under a deterministic scheduler judged against the Lean sequential specification by a linearizability checker proved sound and '
+                      'complete in Lean',
+         'text': '27 variants (SkipListSet/Map, EllenBinTree set/map, BronsonAVLTreeMap value/pointer with injecting and pool monitors; HP/DHP/RCU). The executable Lean model here is the sequential '
+                 'specification (Spec.mapRelaxed) plus the definition of linearizability; the proved theorem is that the checker decides it exactly, so a history the real code produces is accepted '
+                 "iff it is linearizable. The containers' algorithms themselves are not yet modelled step by step: the claim is validation of every explored execution of the real code against the "
+                 "model, not a proof over all schedules. extract_min/extract_max: returned key present and empty only if empty are in the specification; 'no key present throughout is smaller/larger' "
+                 'is a real-time oracle over the history.'},
+ 'C16': {'category': 'translation_validation',
+         'note': 'SC interleavings only (threads serialised by a baton at every atomic operation); explored schedules only (seeded random, PCT, exhaustive <=1/<=2 preemptions of small programs); '
+                 'memory orders not modelled; Lean kernel + propext/Classical.choice/Quot.sound for the checker theorem.',
+         'technique': 'Lean 4: histories of the real containers under a deterministic scheduler judged against the Lean sequential specification by a linearizability checker proved sound and '
+                      'complete in Lean',
+         'text': '23 variants (StripedSet/Map over list/set/flat buckets, striping and refinable policies with forced resizes; CuckooSet/Map striping/refinable, list/vector probe sets, stored hash '
+                 'on/off). The executable Lean model here is the sequential specification (Spec.mapConc) plus the definition of linearizability; the proved theorem is that the checker decides it '
+                 "exactly, so a history the real code produces is accepted iff it is linearizable. The containers' algorithms themselves are not yet modelled step by step: the claim is validation of "
+                 'every explored execution of the real code against the model, not a proof over all schedules. '},
+ 'C23': {'category': 'translation_validation',
+         'technique': 'Lean 4: 28-pc atomic-step machine of the flat-combining kernel with an 18-clause inductive invariant (mutual exclusion of combiners, exactly-once, response after execution, '
+                      'pending not executed, owner republishes) for all schedules + batch theorems of the containers + histories of every flat-combining container and a reclamation oracle on the '
+                      'real code',
+         'text': 'Algo/FC/Kernel models acquire_record, publish, combine, try_combining, combining (useful/empty passes), combining_pass, compact_list (deactivation loop), wait_for_combining with '
+                 'back-off and release_record with ages and compact factor; C23_mutex, C23_exactly_once, C23_response_after_exec, C23_pending_not_executed, C23_owner_republishes, '
+                 'C23_active_unlinked_window hold for any number of threads. The machine is a hand model (publication list as a set, one record per thread, no thread exit); it is tied to the code '
+                 "through the containers' histories (a request executed twice, never, or answered early breaks linearizability) and the record-reclamation clause is decided by a quarantining "
+                 'allocator that checks, when a record is freed, that it is unreachable from the publication list (this found the compact_list defect, fixed).',
+         'note': 'SC interleavings only (threads serialised by a baton at every atomic operation); memory orders not modelled; explored schedules only for the history/oracle/trace ties; Lean kernel '
+                 '+ propext/Classical.choice/Quot.sound. Liveness of a deactivated request: safety form only. Wait strategy backoff only.'},
+ 'C04': {'category': 'proof',
+         'note': 'SC interleavings only (threads serialised by a baton at every atomic operation); explored schedules only for the history/oracle ties; memory orders not modelled; Lean kernel + '
+                 'propext/Classical.choice/Quot.sound. general_threaded and signal_buffered (OS thread / signals) are not run; std::mutex replaced by the spin lock through the template parameter; '
+                 'the buffer is an atomic bag in the model (its queue is judged by C07).',
+         'technique': 'Lean 4: inductive invariants over an atomic-step machine of the general-purpose RCU (two-phase flip, nesting, epoch tagging, buffer overflow, destruct) for all schedules and '
+                      'thread counts + oracles evaluated on the real general_instant/general_buffered under a deterministic scheduler',
+         'text': 'C04_grace_period, C04_no_dispose_under_preexisting_reader (both general flavours, including the epoch-tag lemma), C04_nested are Lean theorems about a hand model of '
+                 'gp.h/gpi.h/gpb.h. The model is tied to the code by oracles on the real execution (disposer-time check against every open critical section that began before the retire, '
+                 'synchronize-return check, deref of poisoned objects), 30000+ schedules per run including buffer capacity 1 and overflow; the trace-conformance replay of this machine is not wired '
+                 'yet (named in the evidence).'},
+ 'C05': {'category': 'proof',
+         'note': 'SC interleavings only (threads serialised by a baton at every atomic operation); explored schedules only for the history/oracle ties; memory orders not modelled; Lean kernel + '
+                 'propext/Classical.choice/Quot.sound. same limits as C04.',
+         'technique': 'Lean 4: conservation invariant (every retired object in exactly one place) and exactly-once theorems over the same RCU machine incl. destruct + per-object disposer counters on '
+                      'the real code',
+         'text': 'C05_at_most_once, C05_only_after_retire, C05_only_after_grace_period, C05_conservation, C05_all_disposed_after_destruct are Lean theorems about the RCU machine (including the '
+                 'element whose push failed on a full buffer and the pushed-back element with a newer epoch). The real flavours are run with per-object counters checked after destruction of the '
+                 'singleton.'},
+ 'C12': {'category': 'proof',
+         'note': 'SC interleavings only (threads serialised by a baton at every atomic operation); explored schedules only for the history/oracle ties; memory orders not modelled; Lean kernel + '
+                 'propext/Classical.choice/Quot.sound. counters are Nat (no 2^64 wrap); capacity rounded to a multiple of 8 by the constructor after the fix commit.',
+         'technique': 'Lean 4: invariant proofs over a two-thread atomic-step machine of the typed ring buffer (all interleavings, any capacity and batch sizes) tied by trace conformance; proved '
+                      'sequential model of the variable-size record layout; byte-exact consumer oracle on the real void buffer',
+         'text': "C12_typed_fifo, buffer content, push/pop failure characterisations and never-overwrites are theorems about the machine that the real typed buffer's traces are replayed against step "
+                 "by step (3000+ traces per run). The void variant's record layout (headers, tail markers, wrap) is a proved sequential model over the translated size helpers; its producer/consumer "
+                 'interleavings are decided by the byte-exact oracle on explored schedules.'},
+ 'C08': {'category': 'exploration',
+         'note': 'SC interleavings only (threads serialised by a baton at every atomic operation); explored schedules only for the history/oracle ties; memory orders not modelled; Lean kernel + '
+                 'propext/Classical.choice/Quot.sound.',
+         'technique': 'oracles over self-recorded real-time histories of the real SegmentedQueue (conservation, quasi bound in its sound real-time reading, empty rule) under a deterministic '
+                      'scheduler with a deterministic permutation generator; no Lean model yet',
+         'text': 'Decided on explored schedules only. The Lean side currently contributes only the verified checker infrastructure; a segmented-queue model is not written.'},
+ 'C17': {'category': 'translation_validation',
+         'note': 'sequential growth only; concurrent resizes are judged by C14/C16.',
+         'technique': 'single-threaded differential runs of CuckooSet/StripedSet/SplitListSet growth against a std::set reference after every operation, with degenerate hash families; Lean theorems '
+                      "for the split-order (C27) and Feldman (C28) parts of 'growth moves nothing it should not'",
+         'text': 'SplitList growth never moves an element and Feldman expansion moves one element one level: these parts rest on the C27/C28 theorems. Striped and cuckoo rehash have no Lean model '
+                 'yet: decided exactly (single-threaded) on generated sequences. The CuckooSet::resize drop is a recorded known finding with a kept witness.'},
+ 'C20': {'category': 'translation_validation',
+         'note': 'variants are those instantiated by the harness clients, not the full trait matrix of test/unit.',
+         'technique': 'single-threaded operation sequences on every variant of every client judged against the strict Lean reference specifications by the verified checker; spec laws of update() as '
+                      'Lean theorems',
+         'text': 'About 190 container variants x 2500 sequences per quick run; return values and payloads observed through functors are compared with Spec.map/fifo/bfifo/lifo/deque/maxpq. '
+                 'size/empty/clear, functor call counts and disposer counts are only partly covered (named in the evidence).'},
+ 'C21': {'category': 'proof',
+         'technique': 'Lean 4: atomic-step machines of FreeList (reference-counted) and TaggedFreeList (tagged double-width CAS) with node reuse, proved for all schedules (no double hand-out, '
+                      'conservation, quiescent completeness, tag / reference lemmas) + atomic-trace conformance of the real free lists against the machines + ownership oracles (also for '
+                      'CachedFreeList)',
+         'text': 'C21_freelist_no_double_handout, C21_freelist_conservation, C21_freelist_quiescent_complete, C21_freelist_ref_means_unchanged, C21_freelist_no_borrow and the tagged counterparts '
+                 '(C21_tagged_cas_means_unchanged: equal tag means no successful head CAS in between) hold for any number of threads and nodes, with stale pointers and counted references on reused '
+                 "nodes. Real traces (every atomic operation on head, m_freeListRefs, m_freeListNext with values, every result) are replayed against the machines; the start state is the machine's "
+                 "own run of the client's initial puts. CachedFreeList has no machine and is decided by the client's oracles.",
+         'note': 'SC interleavings only (threads serialised by a baton at every atomic operation); memory orders not modelled; explored schedules only for the history/oracle/trace ties; Lean kernel '
+                 '+ propext/Classical.choice/Quot.sound. FreeList count below 2^31, TaggedFreeList tag unbounded; CachedFreeList: explored schedules only.'},
+ 'C24': {'category': 'exploration',
+         'technique': 'ownership / marker / destructor / preallocated-range oracles on the real vyukov_queue_pool, lazy, bounded pools and pool_allocator under a deterministic scheduler, up to and '
+                      'past capacity; the pooled type has a constructor and destructor with visible effects that are scheduling points; the underlying queue is the machine proved in C07',
+         'text': 'Decided on explored schedules only: double-alloc, corrupted marker, destroyed-while-allocated, foreign object, heap-while-free, spurious bad_alloc, and at quiescence '
+                 'lost-pool-object / overcommit / lazy reuse order / leak. Rests on C07 (Lean machine + trace conformance) for the underlying queue.',
+         'note': 'SC interleavings only (threads serialised by a baton at every atomic operation); memory orders not modelled; explored schedules only for the history/oracle/trace ties; Lean kernel '
+                 '+ propext/Classical.choice/Quot.sound.'},
+ 'C18': {'category': 'translation_validation',
+         'technique': 'Lean 4: well-formedness predicates over dumps of the quiescent structures with theorems (well-formed => traversal exact, strictly increasing, duplicate-free; skip-list levels '
+                      'are ordered sub-lists; search-tree order; strict AVL; split order) + the dump of every explored final state of the real containers judged by those Lean functions + final '
+                      'content tied to the history by the verified linearizability checker',
+         'text': 'After each program (concurrent, any explored schedule, or sequential) the main thread dumps the structure through the private fields; `cdsdriver snapshot` evaluates '
+                 "listWf/skipWf/ellenWf/avlWf/splitWf (Base/Snapshot) and returns the abstract content, which must equal the container's own traversal, agree with size()/empty() where a counter "
+                 'exists, and be a possible final content of the history (one contains-observation per key is appended and the verified checker judges the whole). C18_list, C18_skiplist, C18_ellen, '
+                 "C18_avl, C18_avl_strict, C18_splitlist state what well-formedness implies; both libraries' check_consistency() are transcribed and Bronson's is proved vacuous for balance "
+                 '(libCheck_eq_localOrder). AVL balance is judged on structural heights (shapeBalanced_iff).',
+         'note': 'SC interleavings only (threads serialised by a baton at every atomic operation); memory orders not modelled; explored schedules only for the history/oracle/trace ties; Lean kernel '
+                 "+ propext/Classical.choice/Quot.sound. 'Every reachable quiescent state is well-formed' is decided on explored schedules, not proved. Known finding: Bronson can be left imbalanced "
+                 'by 2 at quiescence.'},
+ 'C19': {'category': 'exploration',
+         'technique': 'relational oracle over the real iterators of IterableList, MichaelHashSet/SplitListSet over it and FeldmanHashSet/Map (forward and reverse) with concurrent updaters under a '
+                      "deterministic scheduler; the oracle's clauses are stated as decidable Lean definitions (Props/C19)",
+         'text': 'One iterating thread and 2-3 updating threads; the client logs additions, removals, visits and erase_at calls with scheduler timestamps and judges: never a disposed current element '
+                 '(flag read on arrival and before leaving, scheduling points in between), every element present throughout visited (exactly once / in key order for lists, at least once for '
+                 'Feldman), no phantom, erase_at true removes exactly that element, erase_at false only if the element was removed or replaced, final content. Feldman hashes share prefixes so that '
+                 'array nodes split under the iterator. No iterator model in Lean yet.',
+         'note': 'SC interleavings only (threads serialised by a baton at every atomic operation); memory orders not modelled; explored schedules only for the history/oracle/trace ties; Lean kernel '
+                 '+ propext/Classical.choice/Quot.sound. HP (and DHP for the intrusive list) only; RCU Feldman iterators not driven.'}}
